@@ -215,6 +215,14 @@ def run(res, tier, seed, widen=1):
             res.prop_failure(case, "decode_p1_readout and decode_p1_readout_content disagree beyond the two identification fields", "paths")
         if full.get("meter_manufacturer_id") != ident[1:4].decode():
             res.prop_failure(case, f"manufacturer id {full.get('meter_manufacturer_id')!r} != {ident[1:4]!r}", "paths")
+        # the identification (meter type id) is what follows the baud-rate character and ALL escape sequences (backslash +
+        # one word character each), written out independently of the library's pattern
+        rest_id = ident.strip()[5:]
+        while len(rest_id) >= 2 and rest_id[0:1] == b"\\" and (rest_id[1:2].isalnum() or rest_id[1:2] == b"_"):
+            rest_id = rest_id[2:]
+        want_id = rest_id.decode() if rest_id else None
+        if full.get("meter_type_id") != want_id:
+            res.prop_failure(case, f"meter type id {full.get('meter_type_id')!r}, the identification line {ident!r} carries {want_id!r}", "paths")
         a1 = AutoDecoder().decode_message_payload(t)
         a2 = AutoDecoder().decode_message(ro)
         if a1 is None or D.render_dict(a1) != D.render_dict(content) or a2 is None or D.render_dict(a2) != D.render_dict(full):
@@ -264,6 +272,28 @@ def replay(payload, res):
         s = c["text"]
         E = round(float(s) * 1000)
         ok = int(float(s) * 1000) in (E, E - 1)
+    elif c["op"] in ("p1.readout", "automsg"):
+        # a whole readout (identification line + data block + end line) through decode_message: compared with the model,
+        # and the meter type id with the identification written out independently
+        from han import dlde
+        from han.autodecoder import AutoDecoder
+        b = bytes.fromhex(c["hex"])
+        try:
+            r = AutoDecoder().decode_message(dlde.DataReadout(b))
+            i = "None" if r is None else D.render_dict(r)
+        except Exception as ex:  # noqa
+            r, i = None, "EXC " + D.exc_name(ex)
+        a = lib.drive([f"automsg N P {lib.hexs(b)}"])[0].rsplit(" @", 1)[0]
+        print("impl :", i[:400])
+        print("model:", a[:400])
+        ok = i == a
+        ident = b.lstrip().split(b"\n", 1)[0].strip()
+        rest_id = ident[5:]
+        while len(rest_id) >= 2 and rest_id[0:1] == b"\\" and (rest_id[1:2].isalnum() or rest_id[1:2] == b"_"):
+            rest_id = rest_id[2:]
+        if isinstance(r, dict) and r.get("meter_type_id") != (rest_id.decode() if rest_id else None):
+            print("meter type id", r.get("meter_type_id"), "but the identification line carries", rest_id)
+            ok = False
     else:
         t = bytes.fromhex(c["hex"])
         print("impl parse :", impl_parse(t)[0][:400])
